@@ -117,6 +117,13 @@ fn items(tier: Tier) -> &'static Vec<Item> {
                         // statement does not rule out (noted in DESIGN.md), not judged here
                         continue;
                     }
+                    // declared far above anything an implementation may buffer before it hands
+                    // the request over (refmodel::MAY_BE_BUFFERED): the request IS delivered
+                    let mut last = last.clone();
+                    if last.label.starts_with("cl2000") {
+                        let h = String::from_utf8_lossy(&last.request).replacen("Content-Length: 2000\r\n", "Content-Length: 200000\r\n", 1);
+                        last.request = h.into_bytes();
+                    }
                     for sent_body in [0usize, 800] {
                         if sent_body < 700 && last.label.contains("-part-") {
                             continue;
@@ -250,6 +257,9 @@ fn class_of(sc: &Scenario) -> String {
     }
 }
 
+/// clauses of the shared feature product (props/product.rs) that belong to this property
+const PRODUCT_CLAUSES: &[&str] = &["response-sequence", "response-order", "hang"];
+
 impl Check for C06 {
     fn id(&self) -> &'static str {
         "C06"
@@ -258,12 +268,17 @@ impl Check for C06 {
         "model_checking"
     }
     fn n_items(&self, tier: Tier) -> u64 {
-        items(tier).len() as u64
+        items(tier).len() as u64 + crate::props::product::n_items(tier)
     }
     fn chunk(&self, _tier: Tier) -> u64 {
         8
     }
     fn run_item(&self, idx: u64, tier: Tier, acc: &mut Acc) {
+        let base = items(tier).len() as u64;
+        if idx >= base {
+            crate::props::product::run_item(idx - base, tier, acc, PRODUCT_CLAUSES);
+            return;
+        }
         let it = &items(tier)[idx as usize];
         let sc = scenario(it);
         let cfg = L2Cfg {
@@ -281,13 +296,18 @@ impl Check for C06 {
         }
     }
     fn rule(&self, tier: Tier) -> String {
-        format!(
+        let own = format!(
             "handler programs for n = 1..3 pipelined requests: request {{GET, HEAD, POST Content-Length 10 / 2000, chunked 2000}} x body read {{none, part, all}} x finish {{respond, into_writer + complete raw response, upgrade (last request), drop, panic while holding the request, respond with a body source that fails after 0/10/1500 bytes}}, one handler thread per request or one thread for all (n=3{}: GET/HEAD/Content-Length 2000 x respond/drop/panic); pipelines of 70 and 130 (thorough: 300, 1030) requests cycling through all request kinds, reads and finishes, on one handler thread or one per request (default schedule); {} programs; schedules: all with at most {} deviations (strict); oracle (reference model): the client stream splits into exactly n final messages in request order with the status each action implies (500 for drop and panic), nothing duplicated or missing, no hang; non-trivial = all",
             if tier == Tier::Thorough { "" } else { " and n=2 in the quick tier" }, items(tier).len(),
 "2 (n<=2 with a drop/panic), 1 (other threaded programs, n=3 with a drop/panic), 0 (single handler thread)"
-        )
+        );
+        format!("{} || {} {:?}", own, crate::props::product::RULE, PRODUCT_CLAUSES)
     }
     fn replay(&self, replay: &Value, acc: &mut Acc) {
+        if crate::props::product::is_product_replay(replay) {
+            crate::props::product::replay(replay, acc, PRODUCT_CLAUSES);
+            return;
+        }
         let sc = scenario_from_json(&replay["scenario"]);
         let class = class_of(&sc);
         replay_runner_scenario(acc, replay, &class, &failing_reader_clause);
